@@ -76,6 +76,13 @@ def run(ctx):
         cases.append(("mt%d" % i, [(58, "t")], mt))
         if i % 5 == 0:
             cases.append(("mtg%d" % i, [(11, "id"), (78, [{79: "a", 80: "5"}])], mt))
+    # session-level kinds built by the application or by disconnect(logout_message=...) with adversarial text:
+    # every pool value as Logout Text and TestReqID-free Heartbeat Text; what cannot be represented must be refused
+    for i, v in enumerate(POOL):
+        cases.append(("lo%d" % i, [(58, v)], FMsg.LOGOUT))
+        if i % 4 == 0:
+            cases.append(("hb%d" % i, [(58, v)], FMsg.HEARTBEAT))
+            cases.append(("rj%d" % i, [(45, "2"), (58, v)], FMsg.REJECT))
     # body lengths crossing the 2->3 and 3->4 digit boundaries of BodyLength
     for L in list(range(20, 60)) + list(range(915, 960)):
         cases.append(("len%d" % L, [(58, "x" * L)]))
